@@ -18,6 +18,15 @@
 (* stand before, between or after the fields, in the base class or in the subclass (which then overrides *)
 (* the base's value), and the definition still means the same field list, bytes and decoding; the       *)
 (* members keep the value they were given, on the class, on a constructed and on a decoded instance.    *)
+(*                                                                                                      *)
+(* The dataclass form does not name formats: it *annotates* every field with a type and derives the     *)
+(* format from it (payload_dataclass.py: type_map).  The annotation language - a native type, a type     *)
+(* variable named after a format, a nested payload class, each alone or as the element of list[T] /       *)
+(* tuple[T, ...] / typing.List[T] / typing.Tuple[T, ...], written as an object or (PEP 563) as a string  *)
+(* - and its meaning (TypeMap, from the "unserialized type" column of doc/reference/serialization.rst)   *)
+(* are part of the definition: every field carries the annotation the dataclass form writes for it       *)
+(* (Annotate replaces the customary one by any other annotation with the same meaning), and the format   *)
+(* list the dataclass form ends up with (dfmt) must be that of the plain definition (AnnotationsMean).   *)
 EXTENDS Wire
 
 CONSTANTS MaxFields,      \* longest definition explored
@@ -28,7 +37,7 @@ CONSTANTS MaxFields,      \* longest definition explored
 
 NestedCls == "messaging.anonymization.payload.IntroductionInfo"     \* shipped class used for nested / listed fields
 Item(k)   == [fmt |-> k, cls |-> IF k \in {"payload", "payload-list"} THEN NestedCls ELSE ""]
-Hookable  == {"?", "H", "I", "20s", "varlenH", "varlenHutf8", "bits", "payload-list"}
+Hookable  == {"?", "H", "I", "20s", "varlenH", "varlenHutf8", "bits", "payload-list", "arrayH-?"}
 
 (* per-field custom rules: fix_pack_<name> is applied before packing, fix_unpack_<name> after unpacking; *)
 (* named bijections so that the harness can install the same rule on the three forms                    *)
@@ -40,19 +49,20 @@ HookPack(k, v) ==
     [] k = "I" -> Compl(v)
     [] k \in {"20s", "varlenH", "varlenHutf8"} -> RotL(v)
     [] k = "bits" -> [j \in 1..8 |-> IF j = 1 THEN 1 - v[1] ELSE v[j]]       \* rule on the first bit name only
-    [] k = "payload-list" -> Rev(v)
+    [] k \in {"payload-list", "arrayH-?"} -> Rev(v)
 HookUnpack(k, v) ==
   CASE k = "?" -> ~v
     [] k = "H" -> (v + 65535) % 65536
     [] k = "I" -> Compl(v)
     [] k \in {"20s", "varlenH", "varlenHutf8"} -> RotR(v)
     [] k = "bits" -> [j \in 1..8 |-> IF j = 1 THEN 1 - v[1] ELSE v[j]]
-    [] k = "payload-list" -> Rev(v)
+    [] k \in {"payload-list", "arrayH-?"} -> Rev(v)
 
 (* small value domains (three per kind, the last one is used as the default value) *)
 N1 == [address |-> V4Dom[2], key |-> Pat(5, 1), seeder_pk |-> <<>>, source |-> 1]
 N2 == [address |-> V6Dom[3], key |-> <<>>, seeder_pk |-> Pat(33, 2), source |-> 255]
 N3 == [address |-> V4Dom[5], key |-> <<0>>, seeder_pk |-> <<255>>, source |-> 0]
+F8 == CompDom(BY8)
 KDom(k) ==
   CASE k = "?" -> <<FALSE, TRUE, TRUE, TRUE>>
     [] k = "H" -> <<0, 4660, 65535, 7>>
@@ -67,6 +77,9 @@ KDom(k) ==
     [] k = "address" -> <<V4Dom[2], V6Dom[3], DmDom[2], V4Dom[3]>>
     [] k = "arrayH-q" -> << <<>>, <<S8Dom[3]>>, <<S8Dom[2], S8Dom[8], S8Dom[5]>>, <<S8Dom[2]>> >>
     [] k = "raw" -> << <<>>, Pat(4, 1), Pat(30, 2), <<1, 2>> >>
+    [] k = "d" -> <<F8[1], F8[2], F8[3], F8[6]>>                      \* 0.0, 1.0, +infinity, -pi (IEEE bytes)
+    [] k = "arrayH-?" -> << <<>>, <<TRUE>>, <<FALSE, TRUE, TRUE>>, <<TRUE, FALSE>> >>
+    [] k = "arrayH-d" -> << <<>>, <<F8[2]>>, <<F8[6], F8[1], F8[4]>>, <<F8[2], F8[6]>> >>
 ArgVal(k, i, j) == KDom(k)[((i + j) % 3) + 1]
 (* default values: literals of the field's type (the 4th entry above); the text default contains both  *)
 (* kinds of quotes and a non-ASCII letter ( d e-acute " f ' l t ); the default of a listed field is the  *)
@@ -87,7 +100,44 @@ CVal(ck, sub) ==
     [] ck = "msgid"  -> IF sub THEN 18 ELSE 17
     [] ck = "method" -> IF sub THEN 43 ELSE 42            \* what calling the helper method returns
 
-VARIABLES def,       \* sequence of [k: kind, d: has a default, h: has custom rules, dv: the default value]
+(* ---------------------------------------------------------------------------------------------------- *)
+(* the annotation language of the dataclass form and what an annotation means                            *)
+(* c: "" (the type itself) | "list" | "tuple" | "List" | "Tuple"  (list[T], tuple[T, ...], typing.List[T], *)
+(*    typing.Tuple[T, ...]);  b: the type T - a native type, "format" (a type variable named f, made by    *)
+(*    type_from_format(f)) or "payload" (the nested payload class);  s: written as a string (postponed     *)
+(*    evaluation of annotations, what `from __future__ import annotations` does to every class body)      *)
+(* ---------------------------------------------------------------------------------------------------- *)
+Ann(c, b, f, s) == [c |-> c, b |-> b, f |-> f, s |-> s]
+NoAnn      == Ann("", "none", "", FALSE)              \* 'bits' binds eight names: no dataclass field can say that
+Containers == {"", "list", "tuple", "List", "Tuple"}
+NativeFmt  == ("bool" :> "?") @@ ("int" :> "q") @@ ("float" :> "d") @@ ("bytes" :> "varlenH") @@ ("str" :> "varlenHutf8")
+ElemFmt(a) == CASE a.b = "format" -> a.f [] a.b = "payload" -> "payload" [] OTHER -> NativeFmt[a.b]
+(* documented meaning: the type's own format; a sequence of payloads is a payload-list, a sequence of     *)
+(* natives the array of the element's format ("[bool]" -> arrayH-?, "[int]" -> arrayH-q, "[float]" -> arrayH-d) *)
+TypeMap(a) == IF a.c = "" THEN ElemFmt(a)
+              ELSE IF a.b = "payload" THEN "payload-list"
+              ELSE "arrayH-" \o ElemFmt(a)
+(* pinned deviation used as a negative control: the element test of a sequence annotation accepts every   *)
+(* subclass of int - and bool is one - so that [bool] is sent as [int]                                     *)
+TypeMapImpl(a) == IF "elem_int_subclass" \in Pinned /\ a.c # "" /\ a.b = "bool" THEN "arrayH-q" ELSE TypeMap(a)
+(* the annotation one customarily writes for a field of format k: the native type where there is one,     *)
+(* else the type variable of the format                                                                  *)
+Canon(k) ==
+  CASE k = "?" -> Ann("", "bool", "", FALSE) [] k = "q" -> Ann("", "int", "", FALSE) [] k = "d" -> Ann("", "float", "", FALSE)
+    [] k = "varlenH" -> Ann("", "bytes", "", FALSE) [] k = "varlenHutf8" -> Ann("", "str", "", FALSE)
+    [] k = "arrayH-?" -> Ann("list", "bool", "", FALSE) [] k = "arrayH-q" -> Ann("list", "int", "", FALSE)
+    [] k = "arrayH-d" -> Ann("list", "float", "", FALSE)
+    [] k = "payload" -> Ann("", "payload", "", FALSE) [] k = "payload-list" -> Ann("list", "payload", "", FALSE)
+    [] k = "bits" -> NoAnn
+    [] OTHER -> Ann("", "format", k, FALSE)
+AnnSpace == {Ann(c, b, "", s) : c \in Containers, b \in (DOMAIN NativeFmt) \cup {"payload"}, s \in BOOLEAN}
+            \cup {Ann("", "format", f, s) : f \in Kinds \ {"bits", "payload", "payload-list"}, s \in BOOLEAN}
+(* (a format type variable as the *element* of a sequence has no stated meaning: not part of the language) *)
+(* kinds and annotations that the exhaustive configurations enumerate in single-field definitions only   *)
+FocusKinds == {"d", "arrayH-?", "arrayH-d"}
+
+VARIABLES def,       \* sequence of [k: kind, d: has a default, h: has custom rules, dv: the default value,
+                     \*              ann: the annotation the dataclass form writes for the field]
           split,     \* 0, or the number of leading fields that belong to the base class of a derived definition
           dphase,    \* "define" | "called"
           style,     \* "" | "positional" | "keyword" | "defaulted"
@@ -98,8 +148,9 @@ VARIABLES def,       \* sequence of [k: kind, d: has a default, h: has custom ru
           consts,    \* sequence of [ck, sty, pos: number of fields written before it, sub: written in the subclass body,
                      \*              v: the value written there]
           cvals,     \* value every member of consts must show on the (most derived) class and on its instances
-          bcvals     \* the same for the base class of a derived definition (its own members only)
-dvars == <<def, split, dphase, style, args, fields, pbytes, pdec, consts, cvals, bcvals>>
+          bcvals,    \* the same for the base class of a derived definition (its own members only)
+          dfmt       \* the format list the dataclass form derives from its annotations (<<>>: no dataclass form)
+dvars == <<def, split, dphase, style, args, fields, pbytes, pdec, consts, cvals, bcvals, dfmt>>
 WireIdle == /\ kind = "none" /\ fmt = "" /\ val = <<>> /\ pad = 0 /\ bytes = <<>> /\ data = <<>> /\ dec = Err
             /\ re = <<>> /\ phase = "none"
 
@@ -114,7 +165,7 @@ DecDefFrom(df, i, d, off, acc) ==
 DecDef(df, d) == DecDefFrom(df, 1, d, 0, <<>>)
 
 DInit == /\ def = <<>> /\ split = 0 /\ dphase = "define" /\ style = "" /\ args = <<>> /\ fields = <<>> /\ pbytes = <<>> /\ pdec = Err
-         /\ consts = <<>> /\ cvals = <<>> /\ bcvals = <<>>
+         /\ consts = <<>> /\ cvals = <<>> /\ bcvals = <<>> /\ dfmt = <<>>
 
 AddField(k, d, h) ==
   /\ dphase = "define" /\ Len(def) < MaxFields
@@ -122,15 +173,25 @@ AddField(k, d, h) ==
   /\ Len(def) > 0 => def[Len(def)].k # "raw"                      \* 'raw' swallows the rest: last field only
   /\ h => (k \in Hookable /\ \A i \in 1..Len(def) : ~def[i].h)      \* at most one field with custom rules
   /\ (Len(def) > 0 /\ def[Len(def)].d) => d                        \* defaults form a suffix (Python signature rule)
-  /\ def' = Append(def, [k |-> k, d |-> d, h |-> h, dv |-> IF d THEN DefaultVal(k) ELSE <<>>])
-  /\ UNCHANGED <<split, dphase, style, args, fields, pbytes, pdec, consts, cvals, bcvals>>
+  /\ def' = Append(def, [k |-> k, d |-> d, h |-> h, dv |-> IF d THEN DefaultVal(k) ELSE <<>>, ann |-> Canon(k)])
+  /\ UNCHANGED <<split, dphase, style, args, fields, pbytes, pdec, consts, cvals, bcvals, dfmt>>
+
+(* the field written last is annotated differently in the dataclass form: any annotation that means the  *)
+(* same format (the plain and the compiled form, which name the format, are not touched by this)         *)
+Annotate(a) ==
+  /\ dphase = "define" /\ Len(def) > 0
+  /\ LET n == Len(def) IN
+       /\ def[n].k # "bits" /\ def[n].ann = Canon(def[n].k) /\ a # def[n].ann
+       /\ TypeMap(a) = def[n].k
+       /\ def' = [def EXCEPT ![n].ann = a]
+  /\ UNCHANGED <<split, dphase, style, args, fields, pbytes, pdec, consts, cvals, bcvals, dfmt>>
 
 (* the fields so far become a base class; what follows is defined in a class derived from it *)
 Derive ==
   /\ dphase = "define" /\ split = 0 /\ Len(def) > 0 /\ Len(def) < DerivedMax /\ Len(def) < MaxFields
   /\ def[Len(def)].k # "raw"
   /\ split' = Len(def)
-  /\ UNCHANGED <<def, dphase, style, args, fields, pbytes, pdec, consts, cvals, bcvals>>
+  /\ UNCHANGED <<def, dphase, style, args, fields, pbytes, pdec, consts, cvals, bcvals, dfmt>>
 
 (* a member that is not a wire field is written at this point of the class body (of the subclass, once  *)
 (* the definition is derived); a name is declared once per class body; the class header comes first     *)
@@ -140,7 +201,7 @@ AddConst(ck, sty) ==
   /\ sty = "subscript" => (split = 0 /\ Len(def) = 0 /\ Len(consts) = 0)
   /\ \A i \in 1..Len(consts) : ~(consts[i].ck = ck /\ consts[i].sub = (split > 0))
   /\ consts' = Append(consts, [ck |-> ck, sty |-> sty, pos |-> Len(def), sub |-> split > 0, v |-> CVal(ck, split > 0)])
-  /\ UNCHANGED <<def, split, dphase, style, args, fields, pbytes, pdec, cvals, bcvals>>
+  /\ UNCHANGED <<def, split, dphase, style, args, fields, pbytes, pdec, cvals, bcvals, dfmt>>
 
 Overridden(ck) == \E j \in 1..Len(consts) : consts[j].ck = ck /\ consts[j].sub
 BaseConsts == SelectSeq(consts, LAMBDA c : ~c.sub)
@@ -163,10 +224,12 @@ Call(st) ==
         /\ fields' = fs \o [i \in 1..Len(Strays) |-> Strays[i].v]
   /\ cvals' = [i \in 1..Len(consts) |-> CVal(consts[i].ck, Overridden(consts[i].ck))]
   /\ bcvals' = [i \in 1..Len(BaseConsts) |-> CVal(BaseConsts[i].ck, FALSE)]
+  /\ dfmt' = IF \E i \in 1..Len(def) : def[i].k = "bits" THEN <<>> ELSE [i \in 1..Len(def) |-> TypeMapImpl(def[i].ann)]
   /\ style' = st /\ dphase' = "called"
   /\ UNCHANGED <<def, split, consts>>
 
 DNext == (\/ \E k \in Kinds, d \in BOOLEAN, h \in BOOLEAN : AddField(k, d, h)
+          \/ \E a \in AnnSpace : Annotate(a)
           \/ Derive
           \/ \E ck \in CKinds, sty \in {"bare", "classvar", "subscript"} : AddConst(ck, sty)
           \/ \E st \in {"positional", "keyword", "defaulted"} : Call(st))
@@ -184,6 +247,18 @@ DefaultsUsed == dphase = "called" =>
 MembersFocus == Len(consts) > 0 =>
                   /\ Len(consts) = 1 \/ (Len(consts) = 2 /\ consts[1].ck = consts[2].ck)
                   /\ \A i \in 1..Len(def) : def[i].k = "H" /\ ~def[i].h
+
+(* the same for annotations: free annotations and the kinds that exist for them are enumerated over      *)
+(* single-field definitions without members (longer ones: simulated definitions)                        *)
+AnnFocus == (\E i \in 1..Len(def) : def[i].ann # Canon(def[i].k) \/ def[i].k \in FocusKinds) =>
+              Len(def) = 1 /\ split = 0 /\ Len(consts) = 0
+
+(* what the annotations of the dataclass form mean: it ends up with exactly the format list of the plain *)
+(* definition, whichever of the equivalent annotations was written                                       *)
+AnnotationsMean == dphase = "called" =>
+                     /\ \A i \in 1..Len(def) : def[i].k # "bits" => TypeMap(def[i].ann) = def[i].k
+                     /\ dfmt # <<>> => dfmt = [i \in 1..Len(def) |-> def[i].k]
+                     /\ dfmt = <<>> <=> \E i \in 1..Len(def) : def[i].k = "bits"
 
 (* members that are not fields stay off the wire and keep their value: the instance has exactly the     *)
 (* defined fields, the bytes are those of the field list alone, and every member shows the value of its *)
